@@ -185,7 +185,7 @@ func checkC08(tier, replay string) int {
 	ctx.Cov["child_processes"] = children
 	ctx.Cov["kill_process_events_observed_as_SIGSYS"] = kills
 	ctx.Cov["policies_loaded"] = len(jobs)
-	ctx.Cov["rule"] = "states = policies of probe scope S8 over {getpgrp,getppid,getuid,geteuid,getgid,getegid} (names-only with 1-2 groups and 4 actions; single conditions over 8 ops x 6 argument registers x boundary operands; AND lists, OR lists, conditional entries in two groups, kill_process behind a condition; with and without the whole remaining table as a >255-instruction allow group), each loaded by the real LoadFilter in a fresh child with flags in {0,tsync} and no_new_privs on/off, as root and as uid 65534; transitions = probe events: every probe syscall x every cell of the exact partition of the argument registers, issued with RawSyscall6 from the loading thread and from a second thread; the reference decision (model) is compared with errno / SIGSYS observed on the real kernel, and the sock_fprog captured at the seam hook with the program compiled in the parent"
+	ctx.Cov["rule"] = "states = policies of probe scope S8 over {getpgrp,getppid,getuid,geteuid,getgid,getegid} (names-only with 1-2 groups and 4 actions; single conditions over 8 ops x 6 argument registers x boundary operands; AND lists, OR lists, conditional entries in two groups, kill_process behind a condition; with and without the whole remaining table as a >255-instruction allow group), each loaded by the real LoadFilter in a fresh child with flags in {0,tsync} and no_new_privs on/off, as root and as uid 65534, about half of the loads with a policy value that was assembled and dumped in an earlier shape (one group less, another default action) before being completed; transitions = probe events: every probe syscall x every cell of the exact partition of the argument registers, issued with RawSyscall6 from the loading thread and from a second thread; the reference decision (model) is compared with errno / SIGSYS observed on the real kernel, and the sock_fprog captured at the seam hook with the program compiled in the parent"
 	ctx.Assumptions = []string{"probe syscalls ignore their arguments and always succeed when allowed", "refsem.Decide is the model; the kernel is the implementation", "only host architecture (x86_64) events can be issued"}
 	return ctx.Finish()
 }
@@ -231,7 +231,7 @@ func c08One(ctx *evid.Ctx, a *refsem.Arch, j c08Job, maxKill int, children, even
 	}
 	for run := 0; run < nruns; run++ {
 		sc := &histScript{Threads: 2}
-		sc.Ops = append(sc.Ops, histOp{Op: "load", T: 0, Policy: &pj, Flags: j.flags, NNP: j.nnp})
+		sc.Ops = append(sc.Ops, histOp{Op: "load", T: 0, Policy: &pj, Flags: j.flags, NNP: j.nnp, Staged: len(j.label)%2 == 0 || run%2 == 1})
 		sc.Ops = append(sc.Ops, histOp{Op: "state"})
 		sc.Ops = append(sc.Ops, histOp{Op: "probe", T: 1, Events: toProbe(normal, false)})
 		evT0 := toProbe(normal, false)
